@@ -82,7 +82,7 @@ fn c11(a: &ShardArgs) -> serde_json::Value {
         "distinct_outcomes": st.reordered_leaves,
         "details": {"complete_linearizations": st.leaves, "linearizations_actually_reordered": st.reordered_leaves},
         "violations": st.violations, "samples": st.samples,
-        "assumptions": ["entity sets: <=2 features, <=2 rules each, <=2 (quick) / 3 (thorough) scenarios per feature, <=2 attempts, 2-3 events per attempt; total weight bound as in h_norm::tier_shapes"],
+        "assumptions": ["entity sets: <=2 features (plus fixed three-feature shapes), <=2 rules each, <=2 (quick) / 3 (thorough) scenarios per feature, <=2 attempts, 2-3 events per attempt; total weight bound as in h_norm::tier_shapes"],
     })
 }
 
